@@ -93,10 +93,14 @@
      OpDuplicate  as a CALL it is covered: C12_duplicate_total [U] (D = H2 /\ agent-c10's FilesOwned; dup_sized = SizeOk whenever
                   the call is about to copy a child, the assumption wf_ops makes for every copy of a history) and
                   C12_duplicate_after_history [F]: after any history of covered steps duplicate returns (Ok or Err).
-                  As a STEP it is pending: a FAILING duplicate drops the copy's model record but leaves its root with the
-                  parent link `PModel c` (agent-c13's class dup_failed): PMB breaks and `op_wf` would have to exclude the
-                  garbage nodes (no handle to them exists in the library); for a successful duplicate the missing lemma is
-                  "D is kept by the membership loop" (local file sets translated through the file map name existing files).
+                  As a STEP of a history a SUCCESSFUL duplicate is covered (fourth package, Tree/NoPanicProofsOp3Hist.v):
+                  C12_duplicate_keeps_invariant [U]: D holds again after a duplicate that returns Ok (the membership loop only
+                  stores file ids of the file map, which are ids of files the call created); C12_no_panic3_histories [F]: from
+                  the empty world every history over covered_step3 = all of op2 but OpLoad runs to its end, where op3_wfh asks of
+                  OpDuplicate m: the model exists, dup_sized, and the call does not return Err.  A FAILING duplicate returns
+                  (C12_duplicate_total) but drops the copy's model record and leaves its root with the parent link `PModel c`
+                  (agent-c13's class dup_failed): PMB breaks; `op_wf` would have to exclude those garbage nodes (no handle to
+                  them exists in the library) - open.  C12_histories3_nonvacuous: a history with a duplicate on the real tables.
      OpLoad       the parser is total (C02_load_total); install / merge are proved total by agent-c09 for Good masters only
                   (Tree/LoadRefineIndex.v); missing: H12 for the loaded tree (checked types, names, values of the parser's
                   output: RE / RV / RX / CharsLeaf / OriginsRef for install_tree) and totality of the merge for arbitrary H2 worlds. *)
@@ -107,7 +111,8 @@ From AV Require Import Hash.HashRealAttr Tree.Script2 Tree.SortProofsHeap Tree.S
   Tree.NoPanicProofsHist Tree.NoPanicProofsHistReal Tree.NoPanicProofsOp2 Tree.SortProofsReal Tree.NoPanicProofsHistEx.
 From AV Require Import Tree.Compat Tree.Serialize Tree.NoPanicProofsFiles Tree.NoPanicProofsSerFile Tree.NoPanicProofsCompat
   Tree.NoPanicProofsCompatEx Tree.NoPanicProofsOp2Hist Tree.NoPanicProofsOp2HistReal Tree.NoPanicProofsOp2HistEx.
-From AV Require Tree.Copy Tree.Files Tree.NoPanicProofsDup Tree.NoPanicProofsDupHist.
+From AV Require Tree.Copy Tree.Files Tree.NoPanicProofsDup Tree.NoPanicProofsDupHist Tree.NoPanicProofsOp3Hist Tree.NoPanicProofsOp3HistReal
+  Tree.NoPanicProofsOp3HistEx.
 Open Scope N_scope.
 
 Theorem C12_no_panic_partial :
@@ -390,3 +395,65 @@ Theorem C12_duplicate_after_history :
       (forall s, Copy.m_duplicate RT tab_element tab_enum check_fn LATEST root_attrs m w <> Pan s) /\
       Copy.m_duplicate RT tab_element tab_enum check_fn LATEST root_attrs m w <> Fuel.
 Proof. exact duplicate_after_history_real. Qed.
+
+(* ---- histories with AutosarModel::duplicate as a step ---- *)
+Theorem C12_coverage_step3 : forall o,
+  NoPanicProofsOp3Hist.covered_step3 o = match o with OpLoad _ _ _ _ => false | _ => true end.
+Proof. exact NoPanicProofsOp3Hist.coverage_step3. Qed.
+
+Theorem C12_duplicate_keeps_invariant :
+  forall (T : tables) (tab_el tab_at tab_en : nametab) (check_fn : N -> list N -> res bool) (LATEST : N) (root_attrs : list (N * cdata)),
+    tables_ok12 T = true ->
+    (forall fn s, exists b, check_fn fn s = Val b) ->
+    (forall i e, i < n_elements T -> T_elements T i = Some e -> to_str tab_el (ed_name e) <> None) ->
+    (forall k items it, T_cdata T k = Some (CEnum items) -> In it items -> to_str tab_en (fst it) <> None) ->
+    (forall k name cdid req, T_attributes T k = Some (name, cdid, req) -> to_str tab_at name <> None) ->
+    attrV tab_at tab_en root_attrs ->
+    (forall ty cs v ver, is_ref T ty = Val true -> chardata_spec T ty = Val (Some cs) ->
+                         check_value check_fn v cs ver = Val true -> exists s, v = DString s) ->
+    (forall ty, et_new T (autosar_element T) = Val ty -> plainty T ty) ->
+    forall w m c w',
+      NoPanicProofsDup.D T tab_el tab_at tab_en w -> m < N.of_nat (List.length (w_models w)) ->
+      NoPanicProofsDup.dup_sized T LATEST root_attrs m w ->
+      Copy.m_duplicate T tab_el tab_en check_fn LATEST root_attrs m w = Val (OK c, w') ->
+      NoPanicProofsDup.D T tab_el tab_at tab_en w'.
+Proof. exact NoPanicProofsDup.D_duplicate_ok. Qed.
+
+Theorem C12_no_panic3_histories :
+  forall (check_fn : N -> list N -> res bool) (float_parse : list N -> option N) (fmt : N -> list N)
+         (LATEST name_index name_definition_ref attr_schema_location : N) (root_attrs : list (N * cdata)),
+    (forall fn s, exists b, check_fn fn s = Val b) ->
+    (forall a, In a root_attrs -> to_str tab_attr (fst a) <> None /\ cdata_named tab_enum (snd a)) ->
+    forall l,
+      NoPanicProofsOp3Hist.wf_ops3 RT tab_element tab_attr tab_enum check_fn float_parse fmt LATEST name_index name_definition_ref
+              attr_schema_location root_attrs l empty_world ->
+      exists w', run_ops2F RT tab_element tab_attr tab_enum check_fn float_parse fmt LATEST name_index name_definition_ref
+                           attr_schema_location root_attrs l empty_world = Val w'.
+Proof. exact NoPanicProofsOp3HistReal.no_panic3_histories_real. Qed.
+
+Theorem C12_no_panic3_after_history :
+  forall (check_fn : N -> list N -> res bool) (float_parse : list N -> option N) (fmt : N -> list N)
+         (LATEST name_index name_definition_ref attr_schema_location : N) (root_attrs : list (N * cdata)),
+    (forall fn s, exists b, check_fn fn s = Val b) ->
+    (forall a, In a root_attrs -> to_str tab_attr (fst a) <> None /\ cdata_named tab_enum (snd a)) ->
+    forall l w o,
+      run_ops2F RT tab_element tab_attr tab_enum check_fn float_parse fmt LATEST name_index name_definition_ref
+                attr_schema_location root_attrs l empty_world = Val w ->
+      NoPanicProofsOp3Hist.wf_ops3 RT tab_element tab_attr tab_enum check_fn float_parse fmt LATEST name_index name_definition_ref
+              attr_schema_location root_attrs l empty_world ->
+      NoPanicProofsOp3Hist.covered_step3 o = true ->
+      NoPanicProofsOp3Hist.op3_wfh RT tab_element tab_enum check_fn LATEST root_attrs w o ->
+      (forall s, run_op2F RT tab_element tab_attr tab_enum check_fn float_parse fmt LATEST name_index name_definition_ref
+                          attr_schema_location root_attrs o w <> Pan s) /\
+      run_op2F RT tab_element tab_attr tab_enum check_fn float_parse fmt LATEST name_index name_definition_ref
+               attr_schema_location root_attrs o w <> Fuel.
+Proof. exact NoPanicProofsOp3HistReal.no_panic3_after_history_real. Qed.
+
+(* [F] non-vacuity: a model with a file and two packages is duplicated, the copy sorted and serialized *)
+Theorem C12_histories3_nonvacuous :
+  NoPanicProofsOp3Hist.wf_ops3 RT tab_element tab_attr tab_enum nv_check (fun _ => None) ex_fmt 1048576 3516 6311 78 []
+    NoPanicProofsOp3HistEx.ex3_hist empty_world /\
+  exists w', run_ops2F RT tab_element tab_attr tab_enum nv_check (fun _ => None) ex_fmt 1048576 3516 6311 78 []
+               NoPanicProofsOp3HistEx.ex3_hist empty_world = Val w' /\
+             List.length (w_models w') = 2%nat /\ option_map n_parent (w_nodes w' 6) = Some (PModel 1).
+Proof. exact (conj NoPanicProofsOp3HistEx.ex3_wf NoPanicProofsOp3HistEx.ex3_runs). Qed.
